@@ -240,14 +240,18 @@ package vm
 //@   modifies vmi.mn, vmi.pg.sink, vmi.pg.extra, vmi.pg.cacheMap, vmi.pg.menu, vmi.pg.sizer
 //@   modifies vmi.pg.menu.menu, vmi.pg.menu.sink, vmi.pg.menu.canNext, vmi.pg.menu.canPrevious
 //@   modifies vmi.pg.sizer.crsrs, vmi.sizer.crsrs
+//@   modifies vmi.pg.sizer.sink, vmi.pg.sizer.memberSizes, vmi.pg.sizer.totalMemberSize, vmi.sizer.sink, vmi.sizer.memberSizes, vmi.sizer.totalMemberSize
 //@   ensures @menu fresh(vmi.mn) && vmi.pg.menu == vmi.mn && freshMenu(vmi) && fresh(vmi.pg.cacheMap) && vmi.pg.cacheMap != nil
 //@   ensures @page old(render.memOk(vmi.pg.cache)) && (vmi.sizer != nil ==> render.sizerOk(vmi.sizer)) && (vmi.pg.sizer != nil ==> render.sizerOk(vmi.pg.sizer)) ==> render.pageOk(vmi.pg)
 //@   ensures[C05,C07] @unmapped unmapped(vmi)
 //@   ensures @sizer (vmi.sizer != nil ==> vmi.pg.sizer == vmi.sizer) && (vmi.sizer == nil ==> vmi.pg.sizer == old(vmi.pg.sizer))
 //@   ensures[C02,C07] @cursors old(vmi.pg.sizer == nil || vmi.pg.sizer == vmi.sizer) && old(vmi.pg.sizer) != nil ==> len(vmi.pg.sizer.crsrs) == 0
+//@   ensures @sizerkept old(vmi.pg.sizer) == nil && vmi.sizer != nil ==> vmi.sizer.memberSizes == old(vmi.sizer.memberSizes) && vmi.sizer.sink == old(vmi.sizer.sink)
+//@   ensures @sizes old(vmi.pg.sizer == nil || vmi.pg.sizer == vmi.sizer) && old(vmi.pg.sizer) != nil ==> vmi.pg.sizer.sink == "" && vmi.pg.sizer.totalMemberSize == 0
+//@     && vmi.pg.sizer.memberSizes != nil && fresh(vmi.pg.sizer.memberSizes) && all[string](k, !in(k, vmi.pg.sizer.memberSizes))
 
 //@ modset navMods(st, ca) = st.ExecPath, st.ExecPath[*], st.SizeIdx, st.Moves, st.lastMove, cac(ca).Cache, cac(ca).Cache[*], cac(ca).CacheUseSize, cac(ca).Sizes[*]
-//@ modset resetMods(vm) = vm.mn, vm.pg.sink, vm.pg.extra, vm.pg.cacheMap, vm.pg.menu, vm.pg.sizer, vm.pg.menu.menu, vm.pg.menu.sink, vm.pg.menu.canNext, vm.pg.menu.canPrevious, vm.pg.sizer.crsrs, vm.sizer.crsrs
+//@ modset resetMods(vm) = vm.mn, vm.pg.sink, vm.pg.extra, vm.pg.cacheMap, vm.pg.menu, vm.pg.sizer, vm.pg.menu.menu, vm.pg.menu.sink, vm.pg.menu.canNext, vm.pg.menu.canPrevious, vm.pg.sizer.crsrs, vm.sizer.crsrs, vm.pg.sizer.sink, vm.pg.sizer.memberSizes, vm.pg.sizer.totalMemberSize, vm.sizer.sink, vm.sizer.memberSizes, vm.sizer.totalMemberSize
 //@ pred fl(vm, i) = state.flag(vm.st, i)
 //@ pred flagsKept(vm) = state.sameFlags(vm.st) && len(vm.st.Flags) == old(len(vm.st.Flags)) && vm.st.BitSize == old(vm.st.BitSize)
 //@ pred posKept(vm) = state.samePosition(vm.st)
@@ -594,6 +598,7 @@ package vm
 //@   callsite opSplit assert[C05,C07] @fresh iterold(fl(vm, state.FLAG_WAIT)) ==> unmapped(vm) && len(vm.mn.menu) == 0 && !vm.mn.sink
 // ... including the error notice and the page cursors: what a freshly created VM would have (C07)
 //@   callsite opSplit assert[C07] @carried iterold(fl(vm, state.FLAG_WAIT)) ==> vm.pg.err == nil && (vm.pg.sizer != nil ==> len(vm.pg.sizer.crsrs) == 0)
+//@   callsite opSplit assert[C07] @carriedsink iterold(fl(vm, state.FLAG_WAIT)) ==> (vm.pg.sizer != nil ==> vm.pg.sizer.sink == "" && all[string](k, !in(k, vm.pg.sizer.memberSizes)))
 
 // Render: whatever is returned passed the final size check of the page (C01);
 // a browse error is turned into the catch node's page.
@@ -619,7 +624,7 @@ package vm
 //@   requires st != nil && state.flagsOk(st) && rs != nil && memOk(ca) && memWf(ca) && count(flagcount) == int(st.BitSize)
 //@   requires st.input == nil || !sameBacking(st.input, st.Flags)
 //@   requires sizer != nil ==> render.sizerOk(sizer) && sizer.memberSizes != cac(ca).Sizes
-//@   modifies sizer.crsrs
+//@   modifies sizer.crsrs, sizer.sink, sizer.memberSizes, sizer.totalMemberSize
 //@   ensures @new fresh(result) && result.st == st && result.ca == ca && result.rs == rs && result.sizer == sizer
 //@   ensures @vm vmOk(result) && render.pageOk(result.pg) && session(result)
 //@   ensures[C05,C07] @unmapped unmapped(result)
